@@ -879,7 +879,7 @@ theorem gmStep_short (nc : NcFile) (coords : List Entry) (danVars : List String)
     gmStep nc coords danVars st (gn, []) =
       { vcrs := st.vcrs.map (fun v => (v.1, v.2.1, { v.2.2 with datum := gv.attrs.filter isDatumParam }))
         out := st.out ++ [rdGM gn gv (inferredRead coords gv)]
-        seen := st.seen ++ [gn] } := by
+        seen := st.seen ++ [gn], used := st.used } := by
   unfold gmStep
   simp only [hv, List.any_nil, Bool.false_eq_true, if_false, List.filterMap_nil, List.isEmpty_nil, if_true]
   rfl
@@ -901,7 +901,7 @@ theorem gmStep_long (nc : NcFile) (coords : List Entry) (danVars : List String) 
     (gv : NcVar) (hv : nc.var? gn = some gv) (hex : ∀ c ∈ cvs, (nc.var? c).isSome = true)
     (hkeys : ∀ c ∈ cvs, c ∈ coords.map Entry.key) (hne : cvs ≠ []) (hvert : ∀ v ∈ st.vcrs, v.1 ∉ cvs) :
     gmStep nc coords danVars st (gn, cvs) =
-      { vcrs := st.vcrs, out := st.out ++ [rdGM gn gv cvs], seen := st.seen ++ [gn] } := by
+      { vcrs := st.vcrs, out := st.out ++ [rdGM gn gv cvs], seen := st.seen ++ [gn], used := st.used } := by
   unfold gmStep
   simp only [hv]
   have hany : cvs.any (fun c => (nc.var? c).isNone) = false := by
